@@ -16,6 +16,9 @@ type Meta struct {
 	closed bool
 	// Closes counts Close calls.
 	Closes int
+	// Hook, when set, is invoked on entry of SetStable / GetStable (a schedule point inside the
+	// metadata store, used by the concurrency driver).
+	Hook func(call string)
 }
 
 var _ types.MetaStore = (*Meta)(nil)
@@ -86,6 +89,9 @@ func (m *Meta) GetStable(key []byte) ([]byte, error) {
 }
 
 func (m *Meta) SetStable(key, value []byte) error {
+	if h := m.Hook; h != nil {
+		h("sset")
+	}
 	seq, f, err := m.R.begin(Ev{Src: "meta", Call: "sset"}, true)
 	if err != nil {
 		return err
